@@ -127,6 +127,33 @@ def string_literal_local(ctx, toks):
         out.append(toks[i]); i += 1
     return out
 UNITS['getMaxExtent'] = dict(file=DA, pre_rules=[string_literal_local], locator=r'void\s+getMaxExtent\s*\(', classes=CL + ['SampledDimension', 'RangeDimension'])
+def dispatch_rules_for(prefix):
+    def rule(ctx, toks): return _dispatch_rules(ctx, toks, prefix)
+    return rule
+def dispatch_rules(ctx, toks): return _dispatch_rules(ctx, toks, 'positionToIndex_')
+def _dispatch_rules(ctx, toks, prefix):
+    """T dim; dim = dimension;  ->  T dim = Dimension_as(dimension);   positionToIndex(...) in the branch of kind T -> positionToIndex_<kind>(...)  (overload by the type of the last argument);
+       the result vector is the answer value vec_opt_pair_v"""
+    KIND = {'SampledDimension': 'sampled', 'SetDimension': 'set', 'DataFrameDimension': 'dataframe', 'RangeDimension': 'range'}
+    out = []; i = 0; cur = None
+    while i < len(toks):
+        t = toks[i]
+        if t.t in KIND and seq_at(toks, i + 1, ['dim', ';', 'dim', '=', 'dimension', ';']):
+            cur = KIND[t.t]
+            out.extend(tokenize('%s%s dim = Dimension_as(dimension);' % (t.ws, t.t))); ctx.env['dim'] = (t.t, False); i += 7; fire(ctx, 'handle-conversion'); continue
+        if t.t == 'positionToIndex' and toks[i + 1].t == '(':
+            if cur is None: raise ExtractError('positionToIndex call outside a branch of known kind')
+            out.append(Tok('id', prefix + cur, t.ws)); i += 1; fire(ctx, 'overload-by-argument-type'); continue
+        if t.t == 'vec_opt_pair':
+            out.append(Tok('id', 'vec_opt_pair_v', t.ws)); i += 1; continue
+        out.append(t); i += 1
+    return out
+from cxx2c import ExtractError
+UNITS['positionToIndex_dispatch'] = dict(file=DA, locator=r'vector<optional<pair<ndsize_t,\s*ndsize_t>>>\s+positionToIndex\s*\((?=\s*const\s+vector<double>\s*&\s*start_positions\s*,\s*const\s+vector<double>\s*&\s*end_positions\s*,\s*const\s+vector<string>\s*&\s*units\s*,\s*const\s+RangeMatch\s+range_matching\s*,\s*const\s+Dimension\s*&)',
+    classes=['Dimension', 'SampledDimension', 'SetDimension', 'RangeDimension', 'DataFrameDimension'], pre_rules=[dispatch_rules], subst={'vec_opt_pair': 'vec_opt_pair_v', 'vec_string': 'vec_ustr'}, ret_default='(vec_opt_pair_v){0}')
+UNITS['positionToIndex_dispatch1'] = dict(file=DA, locator=r'optional<ndsize_t>\s+positionToIndex\s*\((?=\s*double\s+position\s*,\s*const\s+string\s*&\s*unit\s*,\s*const\s+PositionMatch\s+match\s*,\s*const\s+Dimension\s*&)',
+    classes=['Dimension', 'SampledDimension', 'SetDimension', 'RangeDimension', 'DataFrameDimension', 'nstring'], pre_rules=[dispatch_rules_for('positionToIndex1_')], ret_default='OPT_NONE_ndsize')
+DPX = 'int gh_dp_calls, gh_dp_kind, gh_dp_with_units, gh_dp_units_id, gh_dp_dim_tag; const double *gh_dp_starts, *gh_dp_ends; RangeMatch gh_dp_match; double gh_dp1_position; int gh_dp1_unit; PositionMatch gh_dp1_match;\n'
 EXTRA = ('opt_ndsize gh_ge; opt_pair gh_pair; double gh_pair_start, gh_pair_end; RangeMatch gh_pair_match; int gh_pair_calls; int gh_unspecified; RangeMatch gh_goc_match, gh_tagged_match, gh_fd_match;\n'
          'int gh_views; size_t gh_view_count_rank, gh_view_offset_rank; ndsize_t gh_view_count_k, gh_view_offset_k; const ndsize_t *gh_view_extent_dims;\n'
          'int gh_tagged_calls, gh_backend_feature_gets, gh_backend_reference_gets; ndsize_t gh_backend_get_index;\n'
@@ -140,11 +167,13 @@ JOBS = [job('Tag_getFeature', ['Tag_backend_getFeature']), job('Tag_getReference
 JOBS.append(dict(name='tag_assemble_dim', bodies=['NDSize_size', 'NDSize_at', 'tag_assemble_dim'], enforce=['tag_assemble_dim'], replace=['positionToIndex_scalar'], extra_c=EXTRA,
                  defines=['ND_FULL_ALLOC'], cbmc_flags=UNW, expect_kinds=['postcondition', 'precondition'], timeout=900))
 JOBS.append(dict(name='getMaxExtent', bodies=['getMaxExtent'], enforce=['getMaxExtent'], replace=[], extra_c=EXTRA, cbmc_flags=UNW, expect_kinds=['postcondition'], timeout=300))
+JOBS.append(dict(name='positionToIndex_dispatch1', bodies=['positionToIndex_dispatch1'], enforce=['positionToIndex_dispatch1'], replace=[], includes=['c05_dispatch.h'], extra_c=DPX, expect_kinds=['postcondition'], timeout=300))
+JOBS.append(dict(name='positionToIndex_dispatch', bodies=['positionToIndex_dispatch'], enforce=['positionToIndex_dispatch'], replace=[], includes=['c05_dispatch.h'], extra_c=DPX, expect_kinds=['postcondition'], timeout=300))
 for j in rank_cases(job('featureData_tag', ['taggedData_tag', 'mk_DataView_3'], split=True, split_workers=3)):
     r = int(j['name'].split('rank=')[1].rstrip(']'))
     j['tiers'] = ('quick', 'thorough') if r <= 3 else ('thorough',)
     JOBS.append(j)
-SPEC = dict(contracts=['nd.h', 'dv.h', 'c05_tag.h'], stubs=['dataarray.h'], include_order=['nd.h', 'dataarray.h', 'dv.h', 'c05_tag.h'], units=UNITS, jobs=JOBS,
+SPEC = dict(contracts=['nd.h', 'dv.h', 'c05_tag.h', 'c05_dispatch.h'], stubs=['dataarray.h'], include_order=['nd.h', 'dataarray.h', 'dv.h', 'c05_tag.h'], units=UNITS, jobs=JOBS,
             trusted_base=['CBMC 6.11.0 (C front end, --dfcc, SAT back end)', 'vlib/cxx2c.py idiom map'] + ND_TRUST +
                          ['Tag / Feature / DataArray handles abstracted to the state these functions read (counts, link type, extent, none-ness)',
                           'assumed: the contract of the DataView constructor (proved for the constructor itself in C17) restated on the construction expression mk_DataView_3',
